@@ -221,6 +221,10 @@ func (g *gen) object(depth int) {
 				k = respell(g.r, k)
 				g.feat("dup-key-respelled")
 			}
+		} else if chance(g.r, 1, 12) {
+			// a name that coincides with a token: it is still just a name
+			k = pick(g.r, TokenNames)
+			g.feat("token-name")
 		} else {
 			k = GenString(g.r, g.o.Features)
 		}
@@ -234,6 +238,11 @@ func (g *gen) object(depth int) {
 	}
 	g.emit(TPunct, "}")
 }
+
+// TokenNames are member names (JSON string literals) whose content coincides
+// with a JSON literal, a number, a token of a JSON dialect or of lisp.
+var TokenNames = []string{`"true"`, `"false"`, `"null"`, `"tru\u0065"`, `"\u0066alse"`, `"nil"`, `"NaN"`, `"Infinity"`, `"-Infinity"`, `"undefined"`,
+	`"True"`, `"FALSE"`, `"t"`, `"0"`, `"-0"`, `"1"`, `"1e5"`, `"1.5"`, `"007"`, `"9223372036854775808"`, `""`, `":true"`, `"'true"`, `"()"`}
 
 // respell rewrites the first plain ASCII character of a JSON string literal as
 // a \u escape, which decodes to the same string.
@@ -511,7 +520,7 @@ func GenString(r Rand, feats map[string]bool) string {
 			sb.WriteString(strings.Repeat(" ", 1+r.Intn(3)))
 		default:
 			f("json-lookalike")
-			sb.WriteString(pick(r, []string{"null", "true", "1e5", "[]", "{}", ":", ",", "//", "/*"}))
+			sb.WriteString(pick(r, []string{"null", "true", "false", "1e5", "[]", "{}", ":", ",", "//", "/*"}))
 		}
 	}
 	sb.WriteByte('"')
